@@ -172,7 +172,8 @@ const wmHeader = "juno-wal-prune-watermark-v1"
 type fileRec struct {
 	bytes   []byte // longest content seen up to the end of the last complete record
 	ends    []int  // ends[k] = offset just after the k-th record (ends[0] = 0)
-	trailer []byte // bytes seen after the last record when the file was cleanly closed
+	trailer []byte // bytes seen after the last record (EOF trailer of a closed log, or block padding)
+	trailerN int   // … when the log had this many records
 }
 
 type fileDesc struct {
@@ -366,6 +367,7 @@ func (r *realSide) observe(dbPath string, learn bool) (diskDesc, error) {
 			}
 			if !garbage && len(content) > last && len(ends) == len(fr.ends) {
 				fr.trailer = append([]byte(nil), content[last:]...)
+				fr.trailerN = len(ends) - 1
 			}
 		}
 	}
@@ -406,6 +408,7 @@ func (r *realSide) observe(dbPath string, learn bool) (diskDesc, error) {
 					fr.bytes = append([]byte(nil), content[:stop]...)
 					if len(content) > stop {
 						fr.trailer = append([]byte(nil), content[stop:]...)
+						fr.trailerN = len(ends) - 1
 					}
 				}
 			}
@@ -490,8 +493,12 @@ func (r *realSide) materialise(img diskDesc, tv tailVariant, rng *lib.RNG) (stri
 			if f.Batches+1 < len(fr.ends) {
 				next = fr.bytes[fr.ends[f.Batches]:fr.ends[f.Batches+1]]
 			}
-			content = append(content, garbageTail(next, fr.trailer, f.Num, tv, rng)...)
-		} else if f.Batches == len(fr.ends)-1 && len(fr.trailer) > 0 && (i < len(img.Files)-1 || rng.Bool()) {
+			var tr []byte
+			if fr.trailerN == f.Batches {
+				tr = fr.trailer
+			}
+			content = append(content, garbageTail(next, tr, f.Num, tv, rng)...)
+		} else if f.Batches == fr.trailerN && len(fr.trailer) > 0 && (i < len(img.Files)-1 || rng.Bool()) {
 			// a cleanly closed log ends with Pebble's EOF trailer
 			content = append(content, fr.trailer...)
 		}
